@@ -62,6 +62,9 @@ def cases_create(tier):
         for lk in itertools.product(kinds, repeat=n):
             for uk in itertools.product(kinds, repeat=n):
                 yield "bounds/n%d/%s/%s" % (n, "".join(k[0] for k in lk), "".join(k[0] for k in uk)), {"n": n, "lk": list(lk), "uk": list(uk), "lin": 0, "nl": 0}
+                if n == 2:
+                    # with a variable mask: the bounds of a FIXED variable are bounds too (a fixed variable outside its finite bound is a violation)
+                    yield "bounds/n%d/%s/%s/second-variable-fixed" % (n, "".join(k[0] for k in lk), "".join(k[0] for k in uk)), {"n": n, "lk": list(lk), "uk": list(uk), "lin": 0, "nl": 0, "mask": [True, False]}
     # linear and non-linear rows: every kind per row, up to 2 rows (3 in thorough for non-linear)
     for rows in (1, 2) + ((3,) if tier == "thorough" else ()):
         for lk in itertools.product(kinds, repeat=rows):
@@ -99,7 +102,9 @@ def _make(T, case):
         T.assume(T.all(nlb <= nub))
         nl = types.SimpleNamespace(lower_bounds=nlb, upper_bounds=nub)
         cvals = T.real("c", (r,))
-    cfg = types.SimpleNamespace(variables=types.SimpleNamespace(lower_bounds=lb, upper_bounds=ub), linear_constraints=lin, nonlinear_constraints=nl)
+    cfg = types.SimpleNamespace(variables=types.SimpleNamespace(lower_bounds=lb, upper_bounds=ub, mask=None if case.get("mask") is None else np.array(case["mask"], dtype=bool),
+                                                                initial_values=x.copy(), types=None),
+                                linear_constraints=lin, nonlinear_constraints=nl)
     return cfg, x, cvals
 
 
